@@ -1,4 +1,5 @@
 #!/bin/bash
+export VERIF_EVIDENCE_DIR=/verif/build/evidence-scratch   # never overwrite the real evidence with runs on patched trees
 # tools/run_harmless.sh [id ...]: apply each behaviour-preserving edit to /repo, run the checks of the properties whose
 # files it touches, undo.  A VIOLATION (exit 1) on any of them is a false alarm.  Self-test only.
 cd /verif
